@@ -152,14 +152,15 @@ pub async fn advance_mem_wal_generation(
                     ));
                 }
 
+                // The latest MemWAL is always part of the transaction, also when it is already
+                // sealed and stays as it is: the expected owner was checked against it, so a
+                // concurrent change of its owner or state must conflict with this commit.
+                let mut updated_mem_wal = latest_mem_wal.clone();
+                if latest_mem_wal.state == lance_index::mem_wal::State::Open {
+                    updated_mem_wal.state = lance_index::mem_wal::State::Sealed;
+                }
                 let (updated_mem_wal, removed_mem_wal) =
-                    if latest_mem_wal.state == lance_index::mem_wal::State::Open {
-                        let mut updated_mem_wal = latest_mem_wal.clone();
-                        updated_mem_wal.state = lance_index::mem_wal::State::Sealed;
-                        (Some(updated_mem_wal), Some(latest_mem_wal.clone()))
-                    } else {
-                        (None, None)
-                    };
+                    (Some(updated_mem_wal), Some(latest_mem_wal.clone()));
 
                 let added_mem_wal = MemWal::new_empty(
                     MemWalId::new(region, latest_mem_wal.id.generation + 1),
